@@ -18,6 +18,14 @@ fn main() {
     fw::init_panic_hook();
 
     let id = args[0].clone();
+    if id == "dbg-json" {
+        engines::e2e::debug_json(&args[1..]);
+        return;
+    }
+    if id == "dbg-e2e" {
+        engines::e2e::debug_case(&args[1]);
+        return;
+    }
     let tier = match args.get(1).map(|s| s.as_str()) {
         Some("thorough") => Tier::Thorough,
         _ => match std::env::var("VERIF_TIER").ok().as_deref() {
